@@ -291,5 +291,136 @@ def _k2_obligations(tier: str) -> List[Ob]:
     return obs
 
 
+# --------------------------------------------------------------------------- K3
+
+REAL_K3 = (
+    'exactly_lib.cli.main_program.MainProgram.execute',
+    'exactly_lib.cli.main_program.MainProgram.execute_test_case',
+    'exactly_lib.cli.main_program.MainProgram.execute_test_suite',
+    'exactly_lib.cli.program_modes.test_case.argument_parsing.parse',
+    'exactly_lib.processing.standalone.processor.Processor',
+    'exactly_lib.processing.standalone.accessor_resolver.AccessorResolver',
+    'exactly_lib.processing.processors.new_accessor',
+    'exactly_lib.processing.processors.new_processor_that_should_not_pollute_current_process',
+    'exactly_lib.processing.processors.new_accessor_from_conf',
+    'exactly_lib.processing.processors._Executor',
+    'exactly_lib.processing.processors.Configuration',
+    'exactly_lib.processing.processing_utils.AccessorFromParts',
+    'exactly_lib.processing.processing_utils.ProcessorFromAccessorAndExecutor',
+    'exactly_lib.processing.preprocessor.PreprocessorViaExternalProgram',
+    'exactly_lib.processing.test_case_handling_setup.ComposedTestCaseTransformer',
+    'exactly_lib.test_suite.file_reading.suite_file_reading.read_suite_document',
+    'exactly_lib.test_suite.file_reading.suite_file_reading.resolve_test_case_handling_setup',
+    'exactly_lib.test_suite.file_reading.suite_file_reading.resolve_handling_setup_from_suite_file',
+    'exactly_lib.test_suite.file_reading.suite_file_reading.derive_conf_section_environment',
+    'exactly_lib.test_suite.file_reading.suite_file_reading._Parser',
+    'exactly_lib.test_suite.file_reading.suite_file_reading._separate_configuration_elements',
+    'exactly_lib.test_suite.file_reading.suite_file_reading._TestCaseInstructionsFromTestSuiteAdder',
+    'exactly_lib.test_suite.file_reading.suite_hierarchy_reading._SingleFileReader',
+    'exactly_lib.test_suite.instruction_set.sections.configuration.preprocessor.Parser',
+    'exactly_lib.test_suite.instruction_set.sections.configuration.preprocessor.Instruction',
+    'exactly_lib.test_suite.processing.Processor',
+    'exactly_lib.test_suite.processing.SuitesExecutor._case_processor_for',
+    'exactly_lib.test_suite.processing.SuitesExecutor._configuration_for_cases_in_suite',
+    'exactly_lib.test_suite.processing.SuitesExecutor._process_single_sub_suite',
+    'exactly_lib.impls.instructions.configuration.actor',
+    'exactly_lib.impls.instructions.configuration.test_case_status',
+    'exactly_lib.execution.full_execution.execution.execute',
+    'exactly_lib.execution.partial_execution.execution.execute',
+)
+
+STUB_SUBPROCESS = ('subprocess module at process_executor and at processing.preprocessor -> recorder that starts nothing: '
+                   'records argv, cwd, the VSYM_C17_* environment variables, timeout, the listing of act/ and tmp/, the '
+                   'source file handed to an interpreter; exit code 0; as a preprocessor `pp-X` it writes the case file '
+                   'with PPTOKEN replaced by ppX to stdout (contract of a preprocessor program)')
+STUB_CLI_ENV = ('sandbox directory resolver -> counter-named directories (MainProgram argument; sandbox_dir_resolving.'
+                'mk_tmp_dir_with_prefix for suites); preprocessor.tempfile -> counter-named files; deterministic clock in '
+                'the suite reporters; PurePath.__hash__ work-around (see harness/_C16_lib.install_clock); in-memory stdout / stderr')
+
+OUTSIDE_K3 = ('preprocessing by real external programs', 'how a case file is presented in the progress output (names are '
+                                                        'compared after normalisation)',
+              'phase contents other than one process-starting line per phase, [conf] contents other than actor / status / '
+              'preprocessor')
+
+
+def _mask_ok(v, spec) -> bool:
+    """spec: 'free' | an int | a tuple of allowed ints"""
+    if spec == 'free':
+        return 0 <= v <= L.ALL_BITS
+    if isinstance(spec, tuple):
+        for x in spec:
+            if v == x:
+                return True
+        return False
+    return v == spec
+
+
+def _pre_k3(smask: int, spp: bool, cmask: int, bmask: int, bpp: bool) -> bool:
+    c = ob.case()
+    if not (_mask_ok(smask, c['s']) and _mask_ok(cmask, c['c']) and _mask_ok(bmask, c.get('b', 0))):
+        return False
+    pp = c.get('pp', 'free')
+    if pp == 'conf-bit':
+        if spp != (smask % 2 == 1):
+            return False
+    elif pp != 'free' and spp != pp:
+        return False
+    bp = c.get('bpp', False)
+    if bp != 'free' and bpp != bp:
+        return False
+    return True
+
+
+def k3_modes(smask: int, spp: bool, cmask: int, bmask: int, bpp: bool) -> bool:
+    """
+    pre: _pre_k3(smask, spp, cmask, bmask, bpp)
+    post: _
+    """
+    c = ob.case()
+    S = L.Contents('s', ob.concrete_int(smask, 0, 63), ob.concrete_bool(spp))
+    C = L.Contents('c', ob.concrete_int(cmask, 0, 63))
+    B = L.Contents('b', ob.concrete_int(bmask, 0, 63), ob.concrete_bool(bpp))
+    obs = L.k3_observe(c['layout'], S, C, B, bool(c.get('suite_as_dir')), bool(c.get('oracle_bug')))
+    return ob.post(L.k3_ok(obs))
+
+
+def _k3_ob(name, layout, bound, timeout, **case):
+    c = dict(layout=layout)
+    c.update(case)
+    return Ob(name='K3:' + name, fn='k3_modes', case=c, kernel='K3', timeout=timeout, selector=True, bound=bound,
+              real=REAL_K3, stubs=(STUB_SUBPROCESS, STUB_CLI_ENV), outside=OUTSIDE_K3,
+              entry="MainProgram.execute(['suite', SUITE]) / (['--suite', SUITE, CASE]) / ([CASE])")
+
+
+_LAYOUT_TEXT = {
+    'beside': 'top/exactly.suite lists top/c1.case; run as `suite top/exactly.suite`, `--suite top/exactly.suite top/c1.case` '
+              'and `top/c1.case`',
+    'named': 'suites/x.suite lists ../top/c1.case, no exactly.suite beside the case; run as `suite suites/x.suite`, '
+             '`--suite suites/x.suite top/c1.case` and `top/c1.case` (no suite applies)',
+    'both': 'suites/x.suite (contents S) lists ../top/c1.case, top/exactly.suite (contents B) lists c1.case; run as '
+            '`--suite suites/x.suite top/c1.case` (S applies), `top/c1.case` (B applies), `suite suites/x.suite`',
+    'sub': 'top/exactly.suite (contents S) lists c1.case and the sub-suite top/sub/exactly.suite (contents B) which lists '
+           'c2.case; run as `suite top/exactly.suite` (c2 gets B only, c1 gets S), `--suite top/sub/exactly.suite '
+           'top/sub/c2.case` and `top/sub/c2.case`',
+}
+_MASK_TEXT = ('a contents mask is a subset of {conf (actor = source % X-interp, status), setup, act, before-assert, assert, '
+              'cleanup}; each phase holds one process-starting line')
+
+
+def _k3_obligations(tier: str) -> List[Ob]:
+    obs = []
+    T = 1500
+    if tier == 'quick':
+        obs.append(_k3_ob('beside:suite-subsets', 'beside',
+                          _LAYOUT_TEXT['beside'] + '; every contents mask of the suite (preprocessor set iff it has [conf] '
+                                                   'contents) x the case holds contents in every phase; ' + _MASK_TEXT,
+                          T, s='free', c=63, pp='conf-bit'))
+    obs.append(_k3_ob('probe8', 'beside', 'probe', T, s=(0, 9, 18, 27, 36, 45, 54, 63), c=63, pp='conf-bit'))
+    obs.append(_k3_ob('seeded-oracle-error', 'beside', 'seeded oracle error: suite contents expected after the case\'s in setup',
+                      600, s=(2, 3), c=63, pp=False, oracle_bug=True))
+    obs[-1].expect = ob.REFUTE
+    return obs
+
+
 def obligations(tier: str) -> List[Ob]:
-    return _k1_obligations(tier) + _k2_obligations(tier)
+    return _k1_obligations(tier) + _k2_obligations(tier) + _k3_obligations(tier)
